@@ -293,6 +293,101 @@ pub fn run(tier: Tier) -> i32 {
             rep.violation(&key, || what, || json!({"kind": "build_str", "source": src, "observed": o.to_json()}));
         }
     });
+    // the device may also be selected after a code line, inside the body of an invoked macro, or
+    // in an included file: the gate must follow the device that is in force
+    let n_select = AtomicU64::new(0);
+    {
+        let scratch = crate::report::Scratch::new("c13");
+        for d in devs.iter() {
+            let _ = std::fs::write(scratch.path.join(format!("sel_{}.inc", d.name)), format!(".device {}\n", d.name));
+        }
+        let sel_work: Vec<(&DeviceRow, &Form, u8)> = devs.iter().flat_map(|d| forms.iter().flat_map(move |f| (0..3u8).map(move |h| (d, f, h)))).collect();
+        sel_work.par_iter().enumerate().for_each(|(wi, (d, fm, how))| {
+            let c = &fm.variants[0];
+            let gone = removed_by(fm, &d.flags);
+            let avr8l = d.flags.contains("Avr8l");
+            let (o, src, lead): (Outcome, String, Vec<u8>) = match how {
+                0 => {
+                    let src = format!("nop\n.device {}\n{}\n", d.name, c.text());
+                    (sut::build_str(&src), src, vec![0, 0])
+                }
+                1 => {
+                    let src = format!(".macro board_sel\n.device {}\n.endm\nboard_sel\n{}\n", d.name, c.text());
+                    (sut::build_str(&src), src, vec![])
+                }
+                _ => {
+                    let src = format!(".include \"sel_{}.inc\"\n{}\n", d.name, c.text());
+                    let main = scratch.path.join(format!("main_{}.asm", wi));
+                    let _ = std::fs::write(&main, &src);
+                    let o = sut::build_file(main.clone(), Default::default());
+                    let _ = std::fs::remove_file(&main);
+                    (o, src, vec![])
+                }
+            };
+            evals.fetch_add(1, Ordering::Relaxed);
+            n_select.fetch_add(1, Ordering::Relaxed);
+            let hown = ["after-a-code-line", "in-a-macro-body", "in-an-included-file"][*how as usize];
+            let want: Option<Vec<u8>> = if avr8l && (c.mnem == "lds" || c.mnem == "sts") { icase::expect_bytes(Core::Reduced, c) } else { nodev.get(&c.text()).cloned() };
+            let bad: Option<(String, String)> = match (gone, &o, &want) {
+                (Some(flag), Outcome::Ok(b), _) => Some((format!("C13/ungated/flag={}/form={}/device-selected={}", flag, fm.name, hown), format!("{} (selected {}) lacks `{}` (flag {}) but `{}` assembles to {}", d.name, hown, fm.name, flag, c.text(), sut::hex(&b.code)))),
+                (None, Outcome::Ok(b), Some(w)) => {
+                    let mut full = lead.clone();
+                    full.extend(w.iter());
+                    if b.code != full {
+                        Some((format!("C13/changed-bytes/form={}/device-selected={}", fm.name, hown), format!("`{}` on {} (selected {}) assembles to {} instead of {}", c.text(), d.name, hown, sut::hex(&b.code), sut::hex(&full))))
+                    } else if b.flash_size != d.flash_words {
+                        Some((format!("C13/device-not-in-force/device-selected={}", hown), format!("{} selected {} is not the device reported", d.name, hown)))
+                    } else {
+                        None
+                    }
+                }
+                (None, Outcome::Err(e), Some(_)) => Some((format!("C13/over-rejected/form={}/device-selected={}", fm.name, hown), format!("{} (selected {}) has `{}` but it is rejected: {}", d.name, hown, fm.name, e))),
+                _ => None,
+            };
+            if let Some((key, what)) = bad {
+                rep.violation(&key, || what, || json!({"kind": "build_str", "source": src, "observed": o.to_json()}));
+            }
+        });
+    }
+    // sibling spellings (`ld Rd,Z+q` for ldd, `ldd Rd,Z` for ld, ...): if the tool accepts one, the
+    // instruction it emits - found by decoding the word - must be one the device has
+    let n_sibling = AtomicU64::new(0);
+    {
+        let sib: Vec<&str> = vec![
+            "ld r4, Z+5", "ld r4, Y+5", "ld r4, Z+0", "st Z+5, r4", "st Y+63, r4", "ldd r4, Z", "ldd r4, Y", "std Z, r4", "std Y, r4", "ldd r4, X", "ldd r4, X+", "ldd r4, -Y",
+            "ldd r4, Z+", "std X, r4", "std -X, r4", "std Y+, r4", "ld r4, X+0",
+        ];
+        let sib_work: Vec<(&DeviceRow, &str)> = devs.iter().flat_map(|d| sib.iter().map(move |t| (d, *t))).collect();
+        sib_work.par_iter().for_each(|(d, text)| {
+            let src = format!(".device {}\n{}\n", d.name, text);
+            let o = sut::build_str(&src);
+            evals.fetch_add(1, Ordering::Relaxed);
+            n_sibling.fetch_add(1, Ordering::Relaxed);
+            if let Outcome::Ok(b) = &o {
+                if b.code.len() >= 2 {
+                    let w0 = b.code[0] as u16 | (b.code[1] as u16) << 8;
+                    let core = if d.flags.contains("Avr8l") { Core::Reduced } else { Core::Full };
+                    if let Some(mut dec) = isa::decode(core, w0, None) {
+                        // a displacement of 0 is the encoding of plain ld/st through Y/Z, which
+                        // even the smallest cores have
+                        if (dec.mnem == "ldd" || dec.mnem == "std") && dec.ops.iter().any(|o| matches!(o, Opnd::Disp(_, 0))) {
+                            let plain: Vec<Opnd> = dec.ops.iter().map(|o| match o { Opnd::Disp('Y', 0) => Opnd::Ptr(isa::Ptr::Y), Opnd::Disp(_, 0) => Opnd::Ptr(isa::Ptr::Z), x => x.clone() }).collect();
+                            dec = isa::Decoded { mnem: if dec.mnem == "ldd" { "ld" } else { "st" }, ops: plain, len: 1 };
+                        }
+                        let ic = ICase { mnem: dec.mnem, ops: dec.ops.clone() };
+                        let tmp = Form { name: format!("{} {}", dec.mnem, ic.key_ops()), variants: vec![ic] };
+                        if let Some(flag) = removed_by(&tmp, &d.flags) {
+                            rep.violation(
+                                &format!("C13/ungated-spelling/flag={}/emitted={}/device={}", flag, dec.mnem, d.name),
+                                || format!("`{}` on {} assembles to {} = `{} {}`, an instruction the device lacks (flag {})", text, d.name, sut::hex(&b.code), dec.mnem, tmp.variants[0].key_ops(), flag),
+                                || json!({"kind": "build_str", "source": src, "expected": "err (or an instruction the device has)", "observed": o.to_json()}),
+                            );
+                        }
+                    }
+                }
+            }
+        });
+    }
     rep.guard(absent.load(Ordering::Relaxed) > 500 && present.load(Ordering::Relaxed) > 3000, "need both absent and present combinations");
     rep.sample(|| json!({"source": format!(".device {}\n{}", devs[0].name, forms[3].variants[0].text()), "device_flags": devs[0].flags, "form": forms[3].name}));
     rep.sample(|| { let d = devs.iter().find(|d| d.flags.contains("NoMul")).unwrap(); json!({"source": format!(".device {}\nmuls r16, r17", d.name), "expected": "err (NoMul)"}) });
@@ -308,6 +403,8 @@ pub fn run(tier: Tier) -> i32 {
         "absent_combinations_checked": absent.load(Ordering::Relaxed),
         "present_combinations_checked": present.load(Ordering::Relaxed),
         "two_instruction_programs": n_pairs.load(Ordering::Relaxed),
+        "device_selected_elsewhere_programs": n_select.load(Ordering::Relaxed),
+        "sibling_spelling_programs": n_sibling.load(Ordering::Relaxed),
         "forms_removed_per_flag": effective,
         "caps_hit": [],
         "trusted_base": ["harness devspec (flag -> forms, from the flag documentation)", "isa reference for reduced-core lds/sts"],
